@@ -21,7 +21,7 @@ AcctSets == { [a \in {"s1", "s2"} |-> NoA("none")],
               \* accounts that staked and signed before the upgrade
               [a \in {"s1", "s2"} |-> IF a = "s1" THEN CVD(1000, 10, 375, 600, 0, 4) ELSE CVD(80, 0, 200, 40, 20, 1)] }
 \* legacy minter / distributor parameters: a few shapes (kinds NO / LIN / EXP), ids of the harness table
-MinterSets == {1, 2, 3}
+MinterSets == {1, 2, 3, 4}   \* 4: sequence ids 2,3,4
 DistSets == {1, 2}
 
 Mk(hp, xp, vt, tr, ac, mi, di) == [pools |-> (H :> hp) @@ (X :> xp), vtypes |-> vt, traces |-> tr, accts |-> ac, minter |-> mi, dist |-> di, vdenom |-> "uc4e", split |-> FALSE]
